@@ -99,6 +99,8 @@ def run(tier, seed, replay=None):
         R.violation({'what': str(e), 'detail': getattr(e, 'detail', ''), 'theorem': 'gen_walker probing / Props/C13.v'}, nofail=True)
         return R.finish()
     cids, fids = info['cids'], info['fids']
+    names_rev = {v: k for k, v in cids.items()}
+    fids_rev = {v: k for k, v in fids.items()}
     devs = [tuple(d) for d in info['deviations']]
     badclasses = sorted({d[0] for d in devs})
     # ---- instance: theorem for the regenerated schedule + one Coq-checked witness per deviation
@@ -232,7 +234,16 @@ def run(tier, seed, replay=None):
             s, tree, vs = good_rows[i]
             if code == 3:
                 code3 += 1
-                if code3 == 1:
+                # the model no longer describes the walker: judge the walker's own visits on this statement --
+                # which child positions of the specification does it never reach / reach twice?
+                seen_ids = [v[0] for v in vs]
+                missed = sorted({(pc, f) for (nid_, pc, f) in _positions(tree, names_rev, fids_rev) if seen_ids.count(nid_) != 1})
+                new = [m for m in missed if not any([m[0], m[1], k] in f_['classifier']['deviations']
+                                                    for f_ in findings for k in ('never_visited', 'out_of_order'))]
+                if new and len([1 for _, nf in R.violations if not nf]) < 3:
+                    R.violation({'sql': s, 'not_visited_exactly_once': [list(m) for m in new], 'implementation_visits': vs,
+                                 'what': 'query_traversal does not call the visitor exactly once for every node of this statement'})
+                elif code3 == 1:
                     broken.append(BrokenTie(f'walker model disagrees with query_traversal on `{s}`', f'implementation visits: {vs}'))
             elif code == 2:
                 code2 += 1
@@ -310,6 +321,16 @@ def run(tier, seed, replay=None):
     R.notes['schedule'] = info['sched']
     R.notes['deviations'] = info['deviations']
     return R.finish()
+
+
+def _positions(tree, names_rev, fids_rev):
+    """(node id, class of the parent, field) for every real child position of the tree"""
+    out = []
+    for f, tb, tg, c in tree['ch']:
+        if c['cls'] != CNONE:
+            out.append((c['id'], names_rev.get(tree['cls'], '?'), fids_rev.get(f, '?')))
+            out += _positions(c, names_rev, fids_rev)
+    return out
 
 
 def _to_tree_ids(node, cids, fids, idmap):
